@@ -61,6 +61,8 @@ SHARDS = [
     # a macro and an environment of the same name in one document (plain-TeX style \equation ... next to \begin{equation})
     dict(macros=['emph'], envs=['equation', 'align'], specials=[], argless=['equation', 'align'], discard=[]),
     dict(macros=['textbf'], envs=['alignat', 'flalign*'], specials=[], argless=[], discard=[]),
+    # a table environment laid out by a formatter function: comments in cells, the column specification is dropped
+    dict(macros=['emph'], envs=['array'], specials=['&'], argless=[], discard=['args:array']),
     # user-declared discards (custom text database): a macro and two environments
     dict(macros=['emph', 'textbf'], envs=['abstract'], specials=[], argless=[], discard=['emph', 'abstract'], textctx='custom'),
     dict(macros=['textit'], envs=['theorem', 'abstract'], specials=[], argless=[], discard=['theorem', 'abstract'], textctx='custom'),
@@ -95,6 +97,11 @@ def collect(tree, src):
                 nm = uncodes(n['name'])
                 formulas.append(dict(markers=ms, src=codes(src[n['delims'][0]:n['delims'][1]]),
                                      open=codes('\\begin{%s}' % nm), close=codes('\\end{%s}' % nm)))
+            if n['k'] == 'env' and ('args:' + uncodes(n['name'])) in disc:
+                ms = []
+                for a in n['args']:
+                    markers(a, ms, 'd')
+                discarded.extend(ms)
             if n['k'] in ('macro', 'env') and uncodes(n['name']) in disc:
                 ms = []
                 for a in n['args']:
